@@ -231,3 +231,19 @@ def _(self) -> Int:
     raises(ValueError)
     assigns(self)
     ensures(self.number_of_bits < old(self.number_of_bits) and self.value == old(self.value))
+
+
+@contract("Decoder.align", props=["C05", "C16", "C08"])
+def _(self):
+    # aligned PER: skip to the next octet boundary of the whole encoding
+    assigns(self)
+    ensures(self.number_of_bits == old(self.number_of_bits) - old(self.number_of_bits) % 8 and self.value == old(self.value))
+
+
+@contract("Encoder.align", props=["C05", "C01"])
+def _(self):
+    assigns(self)
+    ensures((self.chunks_number_of_bits + self.number_of_bits) % 8 == 0)
+    ensures(0 <= self.number_of_bits - old(self.number_of_bits) and self.number_of_bits - old(self.number_of_bits) < 8)
+    ensures(self.value == old(self.value) * pow2(self.number_of_bits - old(self.number_of_bits)))
+    ensures(self.chunks_number_of_bits == old(self.chunks_number_of_bits))
